@@ -69,8 +69,15 @@ func runLedgerRT(t *testing.T, seed int64, log *traceLog) {
 
 		return false
 	}
+	// a request of the owner that gets no success within 5 s: recorded, and the execution ends there (the
+	// specification has no step for it: the server has stopped serving)
+	failed := func(what string) {
+		log.add(map[string]any{"e": "Unserved", "what": what})
+	}
 	if !request(w.authed("u1", txid(), stun.MethodAllocate, proto.RequestedTransport{Protocol: proto.ProtoUDP})) {
-		t.Fatal("ledger driver: Allocate failed")
+		failed("Allocate")
+
+		return
 	}
 	relay := w.relayOf[c]
 	peer := w.peers["A/1"]
@@ -79,11 +86,15 @@ func runLedgerRT(t *testing.T, seed int64, log *traceLog) {
 		useChan := phase%2 == 1
 		if useChan {
 			if !request(w.authed("u1", txid(), stun.MethodChannelBind, proto.ChannelNumber(0x4000), proto.PeerAddress{IP: pa.IP, Port: pa.Port})) {
-				t.Fatal("ledger driver: ChannelBind failed")
+				failed("ChannelBind")
+
+				return
 			}
 			log.add(map[string]any{"e": "Ev", "kind": "chan+", "key": "16384"})
 		} else if !request(w.authed("u1", txid(), stun.MethodCreatePermission, proto.PeerAddress{IP: pa.IP, Port: pa.Port})) {
-			t.Fatal("ledger driver: CreatePermission failed")
+			failed("CreatePermission")
+
+			return
 		}
 		log.add(map[string]any{"e": "Ev", "kind": "perm+", "key": "A"})
 		var wg sync.WaitGroup
@@ -141,7 +152,9 @@ func runLedgerRT(t *testing.T, seed int64, log *traceLog) {
 	// lifetime 0.  From the moment the success response is in the client's hands (logged by the goroutine that reads
 	// it) the allocation is gone: nothing sent after that moment arrives, however slow the operator's callbacks are.
 	if !request(w.authed("u1", txid(), stun.MethodChannelBind, proto.ChannelNumber(0x4000), proto.PeerAddress{IP: pa.IP, Port: pa.Port})) {
-		t.Fatal("ledger driver: ChannelBind failed")
+		failed("ChannelBind")
+
+		return
 	}
 	log.add(map[string]any{"e": "Ev", "kind": "chan+", "key": "16384"})
 	log.add(map[string]any{"e": "Ev", "kind": "perm+", "key": "A"})
